@@ -24,6 +24,9 @@ def check(chk, thorough=False):
     chk.run('C11.f', 'sibling', 'what is decoded is re-encoded unchanged: codec agreement, preserved flag bits / EID text / time values, RFC layouts (= C02.a, C02.c, C02.e)', lambda ob: _c02(tree, ob), floor=40)
     chk.run('C11.i', 'R-GUARD', 'an administrative payload that is forwarded keeps its octets: falsy values and unknown record types are not re-spelled (= C02.d)', lambda ob: __import__('sa.props.c02', fromlist=['c02d']).c02d(tree, ob), floor=3)
     chk.run('C11.j', 'sibling', 'every block with a CRC type gets its CRC recomputed on output (= C08.c)', lambda ob: __import__('sa.props.c08', fromlist=['c08c']).c08c(tree, ob), floor=8)
+    chk.run('C11.k', 'R-TRUTH', 'the Previous Node block names this node as configured: the configuration loader hands the node ID on as read (= C10.l)', lambda ob: __import__('sa.props.common', fromlist=['config_verbatim']).config_verbatim(tree, ob, 'bp/config.py'), floor=2)
+    chk.run('C11.l', 'sibling', 'the generic layer re-encodes what it decoded: enumerations do not fall back to a default, items are not skipped (= C02.c)', lambda ob: __import__('sa.props.c02', fromlist=['c02c']).c02c(tree, ob), floor=10)
+    chk.run('C11.m', 'R-GUARD', 'the hop-by-hop blocks are brought up to date once per forward: no TX step edits them again for every fragment (= C05.l)', lambda ob: __import__('sa.props.common', fromlist=['tx_steps_discipline']).tx_steps_discipline(tree, ob), floor=4)
     chk.run('C11.e', 'R-ORDER', 'CRCs are computed on the bytes actually sent (= C08.a)', lambda ob: c08a(tree, ob), floor=3)
 
 
@@ -278,6 +281,18 @@ def c11c(tree, ob):
     snd = one(method_calls(fv.func, 'send_bundle', 'self'), 'send in _do_fwd', ob)
     if not fv.dominates(a, snd)[0]:
         ob.violate(AGENT, Q, src(a), 'bundle can be forwarded without the Previous Node block', a)
+    # the hop-by-hop blocks are found through their payload class (Hop Count) or their type code: a payload class that refuses
+    # a block by its VALUES when it is decoded (count over limit, ...) leaves the block opaque -- it is then forwarded as it
+    # arrived, without its count advanced
+    for cname in ('HopCountBlock', 'BundleAgeBlock', 'PreviousNodeBlock'):
+        cls = tree.klass(BLOCKS, cname)
+        hooks = [m for m in cls.body if isinstance(m, ast.FunctionDef) and m.name in ('pre_dissect', 'post_dissect', 'do_dissect', 'post_dissection', 'dissect')]
+        raising = [m for m in hooks if any(isinstance(x, ast.Raise) for x in ast.walk(m))]
+        if raising:
+            ob.violate(BLOCKS, '{}.{}'.format(cname, raising[0].name), 'raise in a dissect hook of ' + cname, 'a {} is refused by its values while it is decoded: the block stays opaque data, is not found as a {} on the '
+                       'forwarding path and leaves the node as it arrived (a hop count is not advanced)'.format(cname, cname), raising[0])
+        else:
+            ob.site(BLOCKS, cls, cname + ' decodes whatever values arrive')
     # hop count
     if not kinds.get('HopCountBlock'):
         loose = [n for n in walk_local(fv.func) if isinstance(n, ast.AugAssign) and src(n.target).endswith('.payload.count')]
@@ -500,4 +515,7 @@ def c11h(tree, ob):
         else:
             ob.violate(CLA, qual, 'return without send_bundle_data / parking', 'the sender closure has a path that neither hands the data to the convergence layer nor parks it for the session: the bundle '
                        '(or this fragment of it) silently disappears while the agent records it as forwarded', func, path_text(wit) if wit else None)
+    # 4. every parked bundle is handed over: the loop that sends them does not edit the list it walks
+    from .common import iter_mutation
+    iter_mutation(tree, ob, [CLA])
     ob.require(n >= 6, 'send_bundle_data / parking sites in bp/cla.py: {}'.format(n))
